@@ -1,3 +1,136 @@
-"""Additional child operations (fast backend, probes, graph sampler ...).
-Imported by the zygote so that child.OPS is complete."""
-from evosim.child import register  # noqa
+"""Additional child operations (probing evolver, bare AppMutator, graph
+sampler ...).  Imported by the zygote so that child.OPS is complete."""
+import importlib
+import traceback
+
+from evosim.child import (register, configure, _with_seams, _exit_event,
+                          _post_probes)
+
+
+def _flatten_sql(sql):
+    out = []
+    for item in sql or []:
+        if callable(item):
+            out.append('<callable>')
+        elif hasattr(item, 'sql'):
+            out.append('%s:%s' % (type(item).__name__,
+                                  _flatten_sql(item.sql)))
+        elif isinstance(item, (list,)):
+            out.append(_flatten_sql(item))
+        else:
+            out.append(repr(item))
+    return out
+
+
+def _mutation_strs(req):
+    """str() of every mutation object of the listed evolution modules (the
+    very objects the evolver will use: module-level MUTATIONS lists)."""
+    out = {}
+    for pkg, labels in sorted((req['args'].get('modules') or {}).items()):
+        for label in labels:
+            try:
+                mod = importlib.import_module('%s.evolutions.%s' % (pkg,
+                                                                    label))
+                out['%s.%s' % (pkg, label)] = [str(m) for m in mod.MUTATIONS]
+            except Exception as e:
+                out['%s.%s' % (pkg, label)] = ['<import error %r>' % (e,)]
+    return out
+
+
+@register('evolve_probe')
+def op_evolve_probe(req, trace):
+    """Evolver API with in-child probes for C03: mutation str() before /
+    after preparing and evolving, and a second preparation pass over the
+    same definitions in the same process."""
+    configure(req)
+    from django_evolution.evolve import Evolver
+    from django_evolution.errors import EvolutionException
+    seams = _with_seams(req, trace)
+    args = req.get('args') or {}
+    db = args.get('database', 'default')
+    status, exc = 'ok', None
+    extra = {}
+    try:
+        before = _mutation_strs(req)
+        ev1 = Evolver(database_name=db)
+        ev1.queue_evolve_all_apps()
+        sql1 = dict((t.id, _flatten_sql(getattr(t, 'sql', None)))
+                    for t in ev1.tasks)
+        after_prepare = _mutation_strs(req)
+        ev2 = Evolver(database_name=db)
+        ev2.queue_evolve_all_apps()
+        sql2 = dict((t.id, _flatten_sql(getattr(t, 'sql', None)))
+                    for t in ev2.tasks)
+        extra['required'] = bool(ev2.get_evolution_required())
+        d = ev2.diff_evolutions()
+        extra['diff_empty'] = bool(d.is_empty(ignore_apps=True))
+        if not extra['diff_empty']:
+            extra['diff'] = str(d)[:500]
+        if extra['required'] and extra['diff_empty'] and \
+                ev2.can_simulate():
+            ev2.evolve()
+            extra['evolved'] = True
+        after_evolve = _mutation_strs(req)
+        trace.emit({'t': 'probe', 'name': 'mutations', 'p': {
+            'rewritten_by_prepare': before != after_prepare,
+            'rewritten_by_evolve': before != after_evolve,
+            'before': before, 'after': after_evolve,
+            'second_pass_same_sql': sql1 == sql2,
+            'sql1': sql1 if sql1 != sql2 else None,
+            'sql2': sql2 if sql1 != sql2 else None}})
+    except EvolutionException as e:
+        status, exc = 'evolution_error', e
+    except Exception as e:
+        status, exc = 'exception', e
+        trace.emit({'t': 'tb', 'tb': traceback.format_exc()})
+    seams.fault = None
+    _post_probes(req, trace)
+    _exit_event(trace, status, exc, extra=extra)
+
+
+@register('appmutator')
+def op_appmutator(req, trace):
+    """Bare AppMutator over the stored signature and the database state
+    scanned from the real database (as the evolver does), for one app and
+    the listed evolution labels; executes the SQL."""
+    configure(req)
+    from django_evolution.db.state import DatabaseState
+    from django_evolution.models import Version
+    from django_evolution.mutators import AppMutator
+    from django_evolution.utils.sql import SQLExecutor
+    from django_evolution.errors import EvolutionException
+    seams = _with_seams(req, trace)
+    args = req.get('args') or {}
+    db = args.get('database', 'default')
+    status, exc = 'ok', None
+    extra = {}
+    try:
+        sig = Version.objects.current_version(using=db).signature
+        st = DatabaseState(db)
+        muts = []
+        for label in args['labels']:
+            mod = importlib.import_module('%s.evolutions.%s' % (args['pkg'],
+                                                                label))
+            muts += list(mod.MUTATIONS)
+        before = [str(m) for m in muts]
+        am = AppMutator(app_label=args['app_label'], project_sig=sig,
+                        database_state=st, database=db)
+        am.run_mutations(muts)
+        sql = am.to_sql()
+        extra['can_simulate'] = bool(am.can_simulate)
+        from django_evolution import signals as S
+        S.evolving.send(sender=None)
+        with SQLExecutor(db, check_constraints=False) as ex:
+            ex.run_sql(sql, execute=True, capture=True)
+        extra['mutations_rewritten'] = before != [str(m) for m in muts]
+        import json
+        extra['app_sig'] = json.dumps(
+            am.project_sig.get_app_sig(args['app_label']).serialize(),
+            sort_keys=True)
+    except EvolutionException as e:
+        status, exc = 'evolution_error', e
+    except Exception as e:
+        status, exc = 'exception', e
+        trace.emit({'t': 'tb', 'tb': traceback.format_exc()})
+    seams.fault = None
+    _exit_event(trace, status, exc, extra=extra)
